@@ -356,3 +356,13 @@ Inductive stored : Type := StoredValue (d : dtv) | StoredRaw (i : dt_input) | Re
 Definition enter_via (fns : list string) (q keeps_fold : bool) (i : dt_input) : stored :=
   if route_coerces fns then (match dt_new q keeps_fold i with Some d => StoredValue d | None => Rejected end)
   else StoredRaw i.
+
+(* ---------------------------------------------------------------- values made by the field type's other constructors
+   Field-wise construction (positional / keyword, with or without a tzinfo argument, and every classmethod that ends
+   in it: combine, strptime, fromtimestamp, fromisoformat, fromordinal, now, ...) is dt_of_fields: explicit
+   tzinfo=None is naive input like any other.  `replace(tzinfo=None)` on a value of the field type is different:
+   when the interpreter builds the result without calling the field type's constructor (GENERATED probe), the result
+   is a naive value OF THE FIELD TYPE, which a record stores as it is. *)
+Definition strip_off (d : dtv) : dtv := mkdt (yr d) (mo d) (dy d) (hh d) (mi d) (ss d) (us d) None.
+Definition replace_tzinfo_none (bypasses_constructor : bool) (d : dtv) : option dtv :=
+  if bypasses_constructor then Some (strip_off d) else dt_of_fields (strip_off d).
